@@ -70,3 +70,30 @@ pub fn tscs(line: &str) -> String {
     let f: u64 = t[2].parse().unwrap();
     format!("ok {}", v::raw_sample_duration(a, b, f))
 }
+
+fn dur_of_nanos(n: u128) -> std::time::Duration {
+    std::time::Duration::new((n / 1_000_000_000) as u64, (n % 1_000_000_000) as u32)
+}
+
+/// `earlier later` (nanoseconds after a common base instant) through the OS arm
+/// of `Timestamp::duration_since`.
+pub fn osd(line: &str) -> String {
+    let t = toks(line);
+    let a: u128 = t[0].parse().unwrap();
+    let b: u128 = t[1].parse().unwrap();
+    match v::os_timestamp_duration_since(dur_of_nanos(b), dur_of_nanos(a)) {
+        Some(p) => format!("ok {p}"),
+        None => "unrepresentable".to_string(),
+    }
+}
+
+/// `start end` through `RawSample::duration` on the OS timer.
+pub fn oss(line: &str) -> String {
+    let t = toks(line);
+    let a: u128 = t[0].parse().unwrap();
+    let b: u128 = t[1].parse().unwrap();
+    match v::os_raw_sample_duration(dur_of_nanos(a), dur_of_nanos(b)) {
+        Some(p) => format!("ok {p}"),
+        None => "unrepresentable".to_string(),
+    }
+}
